@@ -2,6 +2,8 @@
 
 package rib
 
+import "google.golang.org/protobuf/encoding/prototext"
+
 // This file is only compiled with the "verif" build tag. It adds read-only
 // observation points for the verification harness in /verif; it changes no
 // existing behaviour.
@@ -14,6 +16,18 @@ func (r *RIB) VerifPending() map[uint64]string {
 	out := make(map[uint64]string, len(r.pendingEntries))
 	for id, e := range r.pendingEntries {
 		out[id] = e.ni
+	}
+	return out
+}
+
+// VerifPendingOps returns the text form of each held (pending) operation, keyed
+// by operation ID.
+func (r *RIB) VerifPendingOps() map[uint64]string {
+	r.pendMu.RLock()
+	defer r.pendMu.RUnlock()
+	out := make(map[uint64]string, len(r.pendingEntries))
+	for id, e := range r.pendingEntries {
+		out[id] = e.ni + " " + prototext.MarshalOptions{}.Format(e.op)
 	}
 	return out
 }
